@@ -391,34 +391,10 @@ def run(prog: Program, res: Result) -> None:  # noqa: PLR0912, PLR0915
 
     # ------------------------------------------------------------------ R8 one isolated context per rendered instance
     res.rule("C07.R8", "`render … for`: inside the item loop the isolated context is re-created (context.copy) before each render_with_context call, so nothing a partial assigns or counts for one item is seen by the next")
+    from checks.shared import check_render_for_item_isolation
+
+    check_render_for_item_isolation(prog, res, "C07.R8")
     rn = prog.cls("liquid2.builtin.tags.render_tag.RenderNode")
-    n_loop_renders = 0
-    for nm in ("render_to_output", "render_to_output_async"):
-        m = rn.methods.get(nm)
-        if m is None:
-            raise AnalysisError(f"RenderNode.{nm} vanished")
-        for loop in [x for x in ast.walk(m.node) if isinstance(x, (ast.For, ast.AsyncFor, ast.While))]:
-            calls = [c for c in ast.walk(loop) if isinstance(c, ast.Call) and isinstance(c.func, ast.Attribute) and c.func.attr in ("render_with_context", "render_with_context_async")]
-            for c in calls:
-                n_loop_renders += 1
-                ctx_arg = c.args[0] if c.args else None
-                what = f"RenderNode.{nm}: `{norm(c, 60)}` in the item loop renders with a context created in that iteration"
-                fresh = False
-                if isinstance(ctx_arg, ast.Name):
-                    # last statement-level assignment to the name that precedes the call inside the loop body
-                    for st in loop.body:
-                        if st.lineno > c.lineno:
-                            break
-                        if isinstance(st, ast.Assign) and any(isinstance(t, ast.Name) and t.id == ctx_arg.id for t in st.targets):
-                            v = st.value
-                            fresh = isinstance(v, ast.Call) and isinstance(v.func, ast.Attribute) and v.func.attr == "copy" and root_name(v.func.value) == "context"
-                elif isinstance(ctx_arg, ast.Call) and isinstance(ctx_arg.func, ast.Attribute) and ctx_arg.func.attr == "copy":
-                    fresh = True
-                if fresh:
-                    res.ok("C07.R8", f"{m.file}:{c.lineno} RenderNode.{nm}", what, "context.copy(...) at the top level of the loop body")
-                else:
-                    res.fail("C07.R8", file=m.file, line=c.lineno, qualname=f"RenderNode.{nm}", construct=f"{nm}: item loop reuses `{norm(ctx_arg) if ctx_arg is not None else '?'}`", message=f"the item loop of `render … for` renders every item with the same copied context `{norm(ctx_arg) if ctx_arg is not None else '?'}`: locals, counters and macros the partial creates for one item are visible to the next", what=what)
-    res.floor("C07.R8", "render_with_context calls inside item loops", n_loop_renders, 2)
 
     # ------------------------------------------------------------------ R9 loop interrupts stop at the isolation boundary
     res.rule("C07.R9", "break/continue raised inside a macro body or a rendered partial never reach a loop of the caller: no LiquidInterrupt escapes CallNode.render_to_output[_async] (exception-escape analysis), and the render tag renders with partial=True, block_scope=True (converted by render_with_context)")
